@@ -44,6 +44,9 @@ namespace rkcommon {
     inline bool touchingOrOverlapping(const box_t<scalar_t, 3, A> &a,
                                       const box_t<scalar_t, 3, A> &b)
     {
+      if (a.empty() || b.empty())
+        return false;
+
       if (a.lower.x > b.upper.x)
         return false;
       if (a.lower.y > b.upper.y)
@@ -65,6 +68,9 @@ namespace rkcommon {
     inline bool touchingOrOverlapping(const box_t<scalar_t, 2, A> &a,
                                       const box_t<scalar_t, 2, A> &b)
     {
+      if (a.empty() || b.empty())
+        return false;
+
       if (a.lower.x > b.upper.x)
         return false;
       if (a.lower.y > b.upper.y)
@@ -89,7 +95,8 @@ namespace rkcommon {
     template <typename T, int N, bool A>
     inline bool disjoint(const box_t<T, N, A> &a, const box_t<T, N, A> &b)
     {
-      return anyLessThan(a.upper, b.lower) || anyLessThan(b.upper, a.lower);
+      return a.empty() || b.empty() || anyLessThan(a.upper, b.lower)
+          || anyLessThan(b.upper, a.lower);
     }
 
     /*! returns the center of the box (not valid for empty boxes) */
